@@ -103,6 +103,11 @@ def check(run):
     n = 400 if run.tier == "quick" else 6000
     hs = [B.gen_history(run.rng, run.rng.choice([10, 20, 40])) for _ in range(n)]
     B.run_stream(run, binp, "histories", 2, hs, CLAUSES, "random histories with shells attaching and detaching while lines are entered (see C01)")
+    src = open(os.path.join(vlib.REPO, "curlrevshell.go")).read()
+    import re as _re
+    m = _re.search(r"ich\s*=\s*make\(chan string,\s*(\d+)\)", src)
+    run.oblige("source obligation: the program's line channel has depth 1024 (the depth the operator-side harness and model cases use)",
+               bool(m) and m.group(1) == "1024", "found %s" % (m.group(1) if m else None))
     operator_side(run)
     run.assumptions += ["that http.ResponseWriter.FlushError pushes the bytes onto the network is net/http's business; the harness observes that the "
                         "flush is CALLED after every write and before the next line is taken",
